@@ -455,6 +455,8 @@ def compile_ast(
         df = df.select(*left_col_names)
         right_df = right_df.select(*left_col_names)
 
+        # The verb only requires the column types to have a common supertype, so the frames
+        # are stacked in "relaxed" mode (e.g. Int64 and Float64 become Float64).
         # Use pl.union if available (Polars >= 1.35), otherwise use pl.concat
         # pl.union is faster than pl.concat for union operations
         # distinct=True means UNION (remove duplicates), distinct=False means UNION ALL (keep duplicates)
@@ -463,19 +465,19 @@ def compile_ast(
             # pl.union takes a list of DataFrames/LazyFrames and has a distinct parameter
             if nd.distinct:
                 # For UNION (distinct), use union with distinct=True
-                df = pl.union([df, right_df], distinct=True)
+                df = pl.union([df, right_df], how="vertical_relaxed", distinct=True)
             else:
                 # For UNION ALL (not distinct), use union without distinct
-                df = pl.union([df, right_df])
+                df = pl.union([df, right_df], how="vertical_relaxed")
         except (AttributeError, TypeError):
             # Fall back to pl.concat for older Polars versions (< 1.35)
             if nd.distinct:
                 # For UNION (distinct), we need to deduplicate
                 # Polars doesn't have a direct UNION without ALL, so we concat and then distinct
-                df = pl.concat([df, right_df]).unique()
+                df = pl.concat([df, right_df], how="vertical_relaxed").unique()
             else:
                 # For UNION ALL (not distinct), just concat
-                df = pl.concat([df, right_df])
+                df = pl.concat([df, right_df], how="vertical_relaxed")
 
         # name_in_df and select remain the same (from left table)
 
